@@ -20,6 +20,10 @@ CHECKS["C05"] = dict(technique="property-based testing against an affine chord-a
                      note="Trusted: Python integers, reference group law (self-tested without the library).",
                      ref="DESIGN.md section 4, C05")
 
+CHECKS["C06"] = dict(technique="property-based testing against reference [k]P with boundary-structured scalars (multiples of r, 2^bits-d, runs of ones, lambda/|x| digit boundaries) plus recoding/decomposition invariants",
+                     note="Trusted: Python integers, reference group law. Eigenvalue methods only get subgroup bases; PowersOfX digits in the documented range.",
+                     ref="DESIGN.md section 4, C06")
+
 PENDING = {}
 
 
